@@ -369,18 +369,16 @@ class Model:
                         assign(name, f_user(T, v))
                 else:
                     for name in owned:
-                        if not self.attr_info(name)[2]:
-                            continue
-                        if name in kwargs:
+                        if name in kwargs and self.attr_info(name)[2]:  # (init=False: never an argument, but the default is assigned)
                             assign(name, kwargs[name])
                         else:
                             has, dv = self.nearest_default(name)
                             if has:
                                 assign(name, dv)
             for name in names:
-                if self.attr_info(name)[1] != self.spec_cls or not self.attr_info(name)[2]:
+                if self.attr_info(name)[1] != self.spec_cls:
                     continue
-                if name in kwargs:
+                if name in kwargs and self.attr_info(name)[2]:
                     assign(name, kwargs[name])
                 else:
                     has, dv = self.nearest_default(name)
@@ -433,6 +431,15 @@ def run_case(ctx, case):
         ctx.fail(f"{route}|unexpected_raise:{type(obj).__name__}|{shape}", case, f"{desc['instance_class']}(**{case['kwargs']}) raised {obj!r}; expected state {exp[1]}")
         return
     got = {k: v for k, v in object.__getattribute__(obj, "__dict__").items() if not k.startswith("__")}
+    # init=False attributes are observed the way a user observes them ("each managed attribute equals ... the nearest default"):
+    # whether the value sits in the instance or is read through from the class is storage, not state
+    from spec_classes.types import MISSING as _MISSING
+
+    for n in model.all_attrs():
+        if not model.attr_info(n)[2] and n not in got:
+            v = getattr(obj, n, _MISSING)
+            if v is not _MISSING:
+                got[n] = v
     if got != exp[1]:
         diffs = sorted(n for n in set(got) | set(exp[1]) if got.get(n, "<missing>") != exp[1].get(n, "<missing>"))
         kinds = ",".join(sorted({_attr_kind(desc, model, n, case["kwargs"]) for n in diffs}))
